@@ -8,7 +8,7 @@ EXTENDS PatchText, Json, TLC
 CONSTANTS EmitCases, MaxFPs
 VARIABLES fps, ph
 
-Names == {"a/x", "b/x", "f y", NULL}
+Names == {"a/x", "b/x", "f y", "g\th", NULL}
 L(s) == <<s, TRUE>>
 LN(s) == <<s, FALSE>>
 \* hunk shapes: sides as line sequences; includes empty sides, lines without final newline in any
@@ -22,6 +22,7 @@ HunkShapes == {
    [os |-> 4, ns |-> 5, old |-> <<L("c"), LN("p")>>, new |-> <<L("c"), L("p")>>, pre |-> 1, suf |-> 0],   \* adds final newline
    [os |-> 1, ns |-> 1, old |-> <<LN("c"), L("p")>>, new |-> <<LN("c"), L("q")>>, pre |-> 1, suf |-> 0],   \* no-newline line in the middle
    [os |-> 0, ns |-> 0, old |-> <<L("p"), L("p")>>, new |-> <<L("p")>>, pre |-> 0, suf |-> 0],   \* repeated lines: layout is re-derived
+   [os |-> 2, ns |-> 2, old |-> <<L("p")>>, new |-> <<L("p"), LN("")>>, pre |-> 1, suf |-> 0],   \* zero-length line without newline
    [os |-> 7, ns |-> 7, old |-> <<>>, new |-> <<>>, pre |-> 0, suf |-> 0] }                       \* empty hunk -7,0 +7,0
 HunkLists == {<<>>} \cup {<<h>> : h \in HunkShapes} \cup {<<h1, h2>> : h1 \in {x \in HunkShapes : x.pre = 1}, h2 \in {x \in HunkShapes : x.os >= 4}}
 
